@@ -187,6 +187,18 @@ def opLeavesL (ts : List T) : Bool :=
   | t :: rest => opLeaves t && opLeavesL rest
 end
 
+mutual
+/-- second shape assumption (C11 only; also true of every `ast` tree and checked by the driver): a `BinOp`
+node has exactly three children (left, op, right) -/
+def binOp3 (t : T) : Bool :=
+  match t with
+  | .mk k _ _ kids => (!(k = "BinOp") || kids.length = 3) && binOp3L kids
+def binOp3L (ts : List T) : Bool :=
+  match ts with
+  | [] => true
+  | t :: rest => binOp3 t && binOp3L rest
+end
+
 /-- C10's first sentence for one returned match -/
 def checkMatch (p s : T) (m : AstMap) (root : Option Path) : Bool :=
   let pr := stripWrappers p []
